@@ -57,4 +57,8 @@ Scenario(l) == LET a == Apply(C0, l)
                    b == Complete(a.c, <<StepRec(a.ev, a.x)>>, 700)
                    u == Apply(b.c, <<"ubuf">>)
                IN [c |-> Cfg, h |-> Append(b.steps, StepRec(u.ev, u.x)) \o RunLetters(b.c, ProbeLetters, <<>>).steps]
+\* VIEW of the model-checking configurations: TLC evaluates invariants only on states it has not seen before, and "seen" is
+\* decided on the VIEW; a step verdict kept in a ghost variable must therefore be part of it, or a violating edge INTO A KNOWN
+\* STATE would be discarded unexamined (the generation configurations keep the plain View: the verdict is not behaviour)
+ViewM == <<View, gh>>
 =============================================================================
